@@ -19,10 +19,16 @@
     hmac <alg> <key hex> <msg hex>                             HMAC(h,key)(msg)
     hmacseq <alg> <msg hex> <key1 hex> <key2 hex> …            one object, setkey(k_i) then call(msg) for each key
     hmacgen <B> <D> <key hex> <msg hex>                        HMAC over the toy hash of block size B bits, D output bytes
+    hmach <alg> | <step> | <step> …                            ONE hash object with a HISTORY handed to HMAC: the steps of `hashcalls`
+                                                               and `mac <key hex> <msg hex>` (o = HMAC(h,key); o(msg)), `again <msg hex>`
+                                                               (o(msg) once more); printed: the outcome of every call / mac / again step;
+                                                               model = Model.HmacObj over the object threaded through the line; spec = the
+                                                               digest of its own message for a call, RFC 2104 over the standard hash for a MAC
 -/
 import Driver.Wire
 import Model.Hash
 import Model.Hmac
+import Model.HmacObj
 import Model.Multi
 import Spec.Hash
 import Spec.Hmac
@@ -228,8 +234,55 @@ def toyHash (D : Nat) (m : List Nat) : List Nat :=
   (List.range D).map fun j =>
     ((m.zipIdx.foldl (fun acc (x, i) => acc + (i + j + 1) * x) 0) + m.length + 7 * j) % 256
 
+/-! ### `hmach`: the hash object has a history -/
+
+inductive HStep
+  | hash (st : Step)
+  | mac (k m : List Nat)
+  | again (m : List Nat)
+
+def parseHStep? : List String → Option HStep
+  | ["mac", k, m] => do let k ← parseBytes? k; let m ← parseBytes? m; pure (.mac k m)
+  | ["again", m] => do let m ← parseBytes? m; pure (.again m)
+  | toks => (parseStep? toks).map .hash
+
+/-- the model hash object and the HMAC object of the last `mac` threaded through the steps; the outcome of every
+    call / mac / again step -/
+def histModel (c : HashCore) (B : Nat) : HashObj → Option Hmac → List HStep → List String → List String
+  | _, _, [], acc => acc.reverse
+  | o, hm, .hash (.call m l) :: rest, acc =>
+    let (o', r) := c.call o m l
+    histModel c B o' hm rest (fmtE fmtBytes r :: acc)
+  | o, hm, .hash st :: rest, acc => histModel c B (stepObj c false o st).1 hm rest acc
+  | o, hm, .mac k m :: rest, acc =>
+    match HmacObj.hmac (fun o x => c.call o x none) B o k m with
+    | (o', some hm', r) => histModel c B o' (some hm') rest (fmtE fmtBytes r :: acc)
+    | (o', none, r) => histModel c B o' hm rest (fmtE fmtBytes r :: acc)
+  | o, hm, .again m :: rest, acc =>
+    match hm with
+    | none => histModel c B o hm rest ("ERR" :: acc)
+    | some h =>
+      let (o', r) := HmacObj.call h (fun o x => c.call o x none) o m
+      histModel c B o' hm rest (fmtE fmtBytes r :: acc)
+
+def histSpec (sa : Spec.Alg) (B : Nat) : Option (List Nat) → List HStep → List String → List String
+  | _, [], acc => acc.reverse
+  | key, .hash (.call m l) :: rest, acc => histSpec sa B key rest (specHash sa m l :: acc)
+  | key, .hash _ :: rest, acc => histSpec sa B key rest acc
+  | _, .mac k m :: rest, acc => histSpec sa B (some k) rest (fmtBytes (Spec.rfc2104 (specHashFn sa) B k m) :: acc)
+  | key, .again m :: rest, acc =>
+    histSpec sa B key rest ((match key with | some k => fmtBytes (Spec.rfc2104 (specHashFn sa) B k m) | none => "ERR") :: acc)
+
 def handle : Handler := fun op args =>
   match op, args with
+  | "hmach", a :: "|" :: rest => do
+      let (ma, sa) ← parseAlg? a
+      let steps ← (splitBar rest).mapM parseHStep?
+      let model := match ma.new with
+        | .error _ => "ERR"
+        | .ok c => ";".intercalate (histModel c (8 * ma.blocklen) c.initstate none steps [])
+      let specs := histSpec sa ma.blocklen none steps []
+      pure (model, if specs.contains "-" then "-" else ";".intercalate specs)
   | "hash", [a, m, l] => do
       let (ma, sa) ← parseAlg? a; let m ← parseBytes? m; let l ← parseOptNat? l
       pure (fmtE fmtBytes (Model.hash ma m l), specHash sa m l)
